@@ -90,6 +90,7 @@ type jsonInputIter struct {
 	line   int
 	err    error
 	dec    *json.Decoder
+	stream bool
 }
 
 func newJSONInputIter(r io.Reader, fname string) inputIter {
@@ -113,6 +114,9 @@ func (i *jsonInputIter) Next() (any, bool) {
 		var offset *int64
 		var line *int
 		if e, ok := err.(*json.SyntaxError); ok {
+			if i.stream {
+				e.Offset = i.streamErrorOffset(e)
+			}
 			e.Offset -= i.offset
 			offset, line = &e.Offset, &i.line
 		} else if err == io.ErrUnexpectedEOF && i.ir.rs != nil {
@@ -153,7 +157,33 @@ func newStreamInputIter(r io.Reader, fname string) inputIter {
 	ir := newInputReader(r)
 	dec := json.NewDecoder(ir)
 	dec.UseNumber()
-	return &jsonInputIter{next: newJSONStream(dec).next, ir: ir, fname: fname, dec: dec}
+	return &jsonInputIter{next: newJSONStream(dec).next, ir: ir, fname: fname, dec: dec, stream: true}
+}
+
+// The offset of a syntax error of json.Decoder.Token is not the count of the
+// bytes read up to the invalid character, unlike json.Decoder.Decode. It is
+// either the zero-based offset of the token, or the count of the bytes the
+// scanner has seen, which excludes the delimiters and white spaces. Since the
+// decoder stays at the beginning of the token, scan it again to locate the
+// error found by the scanner.
+func (i *jsonInputIter) streamErrorOffset(e *json.SyntaxError) int64 {
+	start := i.dec.InputOffset()
+	var r io.Reader
+	if buf := i.ir.buf; buf != nil {
+		r = bytes.NewReader(buf.Bytes()[min(int(start-i.offset), buf.Len()):])
+	} else if current, err := i.ir.rs.Seek(0, io.SeekCurrent); err == nil {
+		defer i.ir.rs.Seek(current, io.SeekStart)
+		if _, err := i.ir.rs.Seek(start, io.SeekStart); err == nil {
+			r = i.ir.rs
+		}
+	}
+	if r != nil {
+		var v any
+		if f, ok := json.NewDecoder(r).Decode(&v).(*json.SyntaxError); ok && f.Error() == e.Error() {
+			return start + f.Offset
+		}
+	}
+	return start + 1
 }
 
 type nullInputIter struct {
